@@ -309,8 +309,19 @@ impl Headers {
             }
         }
     }
+    /// the spelling under which a header outside the standard table is already held, if it is:
+    /// field names compare in any letter case, so `x-foo` and `X-Foo` are one header
+    fn held_name(&self, name: &'static str) -> &'static str {
+        self.custom.as_ref()
+            .and_then(|c| c.iter().map(|(k, _)| *k).find(|k| k.eq_ignore_ascii_case(name)))
+            .unwrap_or(name)
+    }
+
     #[inline]
     pub(crate) fn insert_custom(&mut self, name: &'static str, value: Cow<'static, str>) {
+        // a name of the standard table, in any letter case, belongs in the table ( as in `from_iter` )
+        if let Some(standard) = Header::from_bytes(name.as_bytes()) {return self.insert(standard, value)}
+        let name = self.held_name(name);
         let self_len = value.len();
         match &mut self.custom {
             None => {
@@ -336,6 +347,8 @@ impl Headers {
         unsafe {self.standard.delete(name as usize)}
     }
     pub(crate) fn remove_custom(&mut self, name: &'static str) {
+        if let Some(standard) = Header::from_bytes(name.as_bytes()) {return self.remove(standard)}
+        let name = self.held_name(name);
         if let Some(c) = self.custom.as_mut() {
             if let Some(v) = c.remove(name) {
                 self.size -= name.len() + ": ".len() + v.len() + "\r\n".len()
@@ -349,6 +362,7 @@ impl Headers {
     }
     #[inline]
     pub(crate) fn get_custom(&self, name: &'static str) -> Option<&str> {
+        let name = self.held_name(name);
         self.custom.as_ref()?
             .get(&name)
             .map(Cow::as_ref)
@@ -382,6 +396,8 @@ impl Headers {
         };
     }
     pub(crate) fn append_custom(&mut self, name: &'static str, value: Cow<'static, str>) {
+        if let Some(standard) = Header::from_bytes(name.as_bytes()) {return self.append(standard, value)}
+        let name = self.held_name(name);
         let value_len = value.len();
 
         let custom = {
